@@ -34,11 +34,21 @@ CHECKS = {
 }
 
 
-def optimised_pass(pid, a):
-    """Second pass of the same check in an interpreter started with -O (assert statements and `if __debug__` blocks stripped): the
-    properties do not depend on interpreter flags, so every execution of the quick-tier space is repeated there against the same
-    oracles.  Its coverage is appended to the evidence of the main pass; a violation found only there is reported like any other
-    (the replay file carries python_optimize=true and is replayed under -O)."""
+def hostile_environment():
+    tz = os.environ.get("TZ", "UTC")
+    other = {"Pacific/Kiritimati": "America/Adak", "America/Adak": "Pacific/Kiritimati", "Europe/Prague": "America/St_Johns"}.get(tz, "America/Adak")
+    return {"VERIF_PYOPT": "1", "VERIF_HOSTILE": "1", "TZ": other, "VERIF_TZ": other, "PYTHONHASHSEED": "4242"}
+
+
+def hostile_pass(pid, a):
+    """Second pass of the same check in a deliberately different process environment.  The properties do not depend on the
+    environment, so every execution of the quick-tier space is repeated against the same oracles with
+      * the interpreter started with -O (assert statements and `if __debug__` blocks stripped),
+      * the process time zone on the other side of UTC than the main pass (a zone with daylight saving),
+      * every logger enabled down to DEBUG with a handler that formats each record,
+      * another PYTHONHASHSEED.
+    Its coverage is appended to the evidence of the main pass; a violation found only there is reported like any other (the replay
+    file carries the environment and is replayed in it)."""
     import subprocess
 
     edir = os.environ.get("VERIF_EVIDENCE_DIR") or os.path.join(HERE, "evidence")
@@ -49,15 +59,15 @@ def optimised_pass(pid, a):
     cmd = [sys.executable, "-O", "-B", os.path.abspath(__file__), pid, "--tier", "quick"]
     if a.only:
         cmd += ["--only", a.only]
-    child_env = dict(os.environ, VERIF_PYOPT="1", VERIF_TIER="quick", VERIF_EVIDENCE_DIR=odir, VERIF_REPLAY_TAG="O")
-    print(f"[{pid}] second pass under python -O (quick-tier bounds)", flush=True)
+    child_env = dict(os.environ, **hostile_environment(), VERIF_TIER="quick", VERIF_EVIDENCE_DIR=odir, VERIF_REPLAY_TAG="H")
+    print(f"[{pid}] second pass in the hostile environment: python -O, TZ={child_env['TZ']}, DEBUG logging, PYTHONHASHSEED={child_env['PYTHONHASHSEED']} (quick-tier bounds)", flush=True)
     p = subprocess.Popen(cmd, stdout=subprocess.PIPE, stderr=subprocess.STDOUT, text=True, env=child_env, cwd=HERE)
     for line in p.stdout:
         line = line.rstrip("\n")
         if line.startswith(("VIOLATION ", "KNOWN-FINDING:", "INTERNAL-ERROR")):
             print(line, flush=True)
         else:
-            print("  [-O] " + line, flush=True)
+            print("  [hostile] " + line, flush=True)
     rc = p.wait()
     main_path = os.path.join(edir, f"{pid}.json")
     try:
@@ -66,8 +76,8 @@ def optimised_pass(pid, a):
         with open(main_path) as f:
             md = json.load(f)
         oc = od["coverage"]
-        md["coverage"]["optimised_interpreter_pass"] = {
-            "interpreter_flags": "-O", "tier_bounds": "quick", "exit_code": rc,
+        md["coverage"]["hostile_environment_pass"] = {
+            "interpreter_flags": "-O", "environment": oc.get("process_environment"), "tier_bounds": "quick", "exit_code": rc,
             "states": oc["states"], "transitions": oc["transitions"], "traces_validated_against_impl": oc["traces_validated_against_impl"],
             "evaluations": oc["evaluations"], "distinct_nontrivial": oc["distinct_nontrivial"], "exhaustive": oc["exhaustive"],
             "new_violation_signatures": oc["new_violation_signatures"], "known_findings_seen": oc["known_findings_seen"],
@@ -109,8 +119,8 @@ def main():
         with open(a.replay) as f:
             doc = json.load(f)
         if doc.get("python_optimize") and not sys.flags.optimize:
-            # the counterexample was found in the optimised-interpreter pass: replay it there
-            os.execve(sys.executable, [sys.executable, "-O", "-B", os.path.abspath(__file__)] + sys.argv[1:], dict(os.environ, VERIF_PYOPT="1"))
+            # the counterexample was found in the hostile-environment pass: replay it there
+            os.execve(sys.executable, [sys.executable, "-O", "-B", os.path.abspath(__file__)] + sys.argv[1:], dict(os.environ, **hostile_environment()))
         if not hasattr(mod, "replay"):
             print("this check has no replay function")
             return 2
@@ -119,7 +129,7 @@ def main():
     try:
         rc = int(mod.run(only=only))
         if rc == 0 and not sys.flags.optimize and not os.environ.get("VERIF_SKIP_OPT_PASS"):
-            rc = optimised_pass(pid, a)
+            rc = hostile_pass(pid, a)
         return rc
     except Exception as e:
         traceback.print_exc()
